@@ -30,7 +30,7 @@ for src_letter, letter in (("A", la), ("B", lb)):
     mt = re.search(r"##[^\n]*(?:manifest|trigger|needs|What it takes|needed|shows)[^\n]*\n(.*?)(?=\n## |\Z)", notes, re.S | re.I)
     needs = (mt.group(1).strip()[:600] if mt else notes[:400])
     json.dump({"id": "%s-%s" % (prop, letter), "breaks_property": prop,
-               "source": "independent sub-agent (round 4) given only the property text, the titles of earlier seeded changes to avoid, and a scratch worktree of /repo at %s" % head,
+               "source": "independent sub-agent (round %s) given only the property text, the titles of earlier seeded changes to avoid, and a scratch worktree of /repo at %s" % (os.environ.get("SEED_ROUND", "4"), head),
                "needs_to_manifest": needs, "demo_crate_tests_dir": cr + "/tests",
                "confirmed_by_me": {"how": "tools/seed_verify.sh in a scratch worktree: pinned suite with the patch, demo with and without the patch",
                                    "suite_pass": v[0], "suite_fail": v[1], "demo_with_patch_pass": v[2], "demo_with_patch_fail": v[3],
